@@ -252,6 +252,18 @@ func checkC15(tier string) *Report {
 			subset = append(subset, c)
 		}
 	}
+	// ... and the same serialisations with every member under its SECOND JSON name (camelCase): single-point mutations of
+	// these reach what needs "the other spelling AND something else" on the module's own (snake_case) output
+	for _, c := range append([]c15Payload{}, subset...) {
+		if strings.Contains(c.Memo, "fees_info") || strings.Contains(c.Memo, "pre_actions") || len(subset) < 60 {
+			cc := c
+			cc.Label = c.Label + " [camelCase]"
+			cc.Memo = camelCaseMemo(c.Memo)
+			if cc.Memo != c.Memo {
+				subset = append(subset, cc)
+			}
+		}
+	}
 	rep.Extra["mutated_payloads"] = len(subset)
 	_ = w.payloadSeeds() // sets the mutator's corpus of known members
 	var nmA int64
